@@ -84,8 +84,57 @@ def run(ctx):
         s2 = str(r2[1])
         if s2 != s1:
             ctx.violate("serialising the reload gives a different text", {"lines": t, "str": s1, "str2": s2}, signature="C17:unstable:" + cls)
-    # %define and %include are refused, not dropped
-    for t in (["%define a b"], ["k v", "%define a"], ["%include x"], ["<a>", "%include x", "</a>"], ["<a>", "%define q r", "</a>"]):
+    # values that only an environment variable can produce (empty, blank-edged, multi-line): the text format cannot
+    # write them back (no quoting) - the listed finding C17-env-values
+    import os
+    env_cases = [("ZCV_C17_EMPTY", "", ["%import $(ZCV_C17_EMPTY)"], "empty-import"),
+                 ("ZCV_C17_EMPTY", "", ["k $(ZCV_C17_EMPTY) x"], "leading-blank"),
+                 ("ZCV_C17_NL", "a\nb c", ["k $(ZCV_C17_NL)"], "newline")]
+    for var, val, t, kind in env_cases:
+        os.environ[var] = val
+        try:
+            r = real_load("".join(l + "\n" for l in t))
+            ctx.evaluations += 1
+            if r[0] != "ok":
+                continue
+            s1 = str(r[1])
+            r2 = real_load(s1)
+            if r2[0] != "ok" or sec_struct(r2[1]) != sec_struct(r[1]):
+                ctx.violate("a value obtained from an environment variable does not survive str() and re-reading: %r with %s=%r -> %r" % (t, var, val, s1),
+                            {"lines": t, "env": {var: val}, "str": s1, "first": sec_struct(r[1]),
+                             "reload": sec_struct(r2[1]) if r2[0] == "ok" else r2[:2]}, signature="C17:env-substituted-value")
+        finally:
+            os.environ.pop(var, None)
+    # %define and %include are refused, not dropped - also right after the schema-based loader has handled the same
+    # directives in this process, and the schema-based loader still handles them afterwards
+    import tempfile
+    import ZConfig
+    sch = ZConfig.loadSchemaFile(io.StringIO("<schema><multikey name='k'/></schema>"))
+    with tempfile.TemporaryDirectory(prefix="zcv-c17-") as td:
+        open(os.path.join(td, "inc.conf"), "w").write("k from-inc\n")
+        open(os.path.join(td, "main.conf"), "w").write("%define a b\nk $a\n%include inc.conf\n")
+
+        def schema_load():
+            try:
+                c, _ = ZConfig.loadConfig(sch, os.path.join(td, "main.conf"))
+                return list(c.k)
+            except Exception as e:
+                return "EXC:" + type(e).__name__
+        first = schema_load()
+        if first != ["b", "from-inc"]:
+            ctx.violate("schema-based load of %%define/%%include gives %r" % (first,), {"got": first}, signature="C17:schema-loader-directives")
+        for t in (["%define a b"], ["k v", "%define a"], ["%include x"], ["<a>", "%include x", "</a>"], ["<a>", "%define q r", "</a>"],
+                  ["%define a b", "k $a"], ["%include " + os.path.join(td, "inc.conf")]):
+            r = real_load("".join(l + "\n" for l in t))
+            ctx.evaluations += 1
+            if r[0] == "ok":
+                ctx.violate("schema-less loader silently accepted %r (after a schema-based load handled the same directives)" % t,
+                            {"lines": t, "result": sec_struct(r[1]), "str": str(r[1])}, signature="C17:directive-dropped")
+        again = schema_load()
+        if again != first:
+            ctx.violate("after schema-less loads refused %%define/%%include the schema-based loader gives %r (before: %r)" % (again, first),
+                        {"before": first, "after": again}, signature="C17:schema-loader-directives")
+    for t in ():
         r = real_load("".join(l + "\n" for l in t))
         ctx.evaluations += 1
         if r[0] == "ok":
